@@ -159,7 +159,7 @@ def scalarApiOp (op : String) (a : List String) : Option (List String) :=
       let enc (bs : List Nat) := natHex (((List.range 256).zip bs).foldl (fun acc (i, b) => acc + b * 2^i) 0) 32
       let bs := bits s
       some ([kv "n" (toString bs.length), kv "b" (enc bs), kv "m" (toString (bs.foldl max 0))] ++
-        (if canonN s then [kv "s_n" "256", kv "s_b" (natHex (fromMontN s) 32)] else []))
+        (if canonN s then [kv "s_n" "256", kv "s_b" (natHex (fromMontN s) 32), kv "s_m" (if fromMontN s = 0 then "0" else "1")] else []))
   | "SC.enc", [s] => let s := parseL4 s
       let e := encode s
       some ([kv "v" (showBytes e), kv "h" (toHex e), kv "m" (showBytes e)] ++
